@@ -5,7 +5,7 @@ import MlModel.Model.PipeAgg
 The correspondence (harness/props/c02.py) runs the pipeline model with one concrete lawful
 `Mergeable`: additive sufficient statistics of the rows (`Stat`: row count, leaf count / sum /
 sum of squares of the first column, leaf count / sum of the second column, the dot product of
-scalar pairs, the bag of first-column leaves), merged component-wise.  Each real aggregate used by
+scalar pairs, the bag of first-column int leaves, the bag of ALL first-column scalars), merged component-wise.  Each real aggregate used by
 the harness (`MeanAndVariance`, `Mean`, `Counter`, user metrics) is a *view* of `Stat`.
 Lawfulness is proved in `Lemmas/PipeAgg.lean` (`statM_lawful`).
 -/
@@ -13,9 +13,12 @@ namespace MlModel.PipeAgg
 open MlModel MlModel.Agg
 
 mutual
-/-- the scalars under a value, in order (`None` and dicts contribute nothing) -/
+/-- the INT scalars under a value, in order (`None` and dicts contribute nothing).  The numeric views
+(`meanvar`, `mean`, `counter`, `sumcount`, `dot`, `pr`, `total`) are tied to the code on int columns only;
+columns of other kinds are observed through the `bag` view, which keeps every scalar. -/
 def Val.leaves : Val → List Int
-  | .leaf v => [v]
+  | .leaf (.int v) => [v]
+  | .leaf _ => []
   | .null => []
   | .seq _ xs => leavesList xs
   | .map _ => []
@@ -37,11 +40,14 @@ structure Stat where
   s1 : Int := 0
   dot : Int := 0
   vals : List Int := []
+  /-- every scalar of the first column (any kind, `None` included), up to Python `==` -/
+  bag : List Scalar := []
   deriving Repr, DecidableEq, Inhabited
 
 def Stat.add (a b : Stat) : Stat :=
   { rows := a.rows + b.rows, n0 := a.n0 + b.n0, s0 := a.s0 + b.s0, q0 := a.q0 + b.q0,
-    n1 := a.n1 + b.n1, s1 := a.s1 + b.s1, dot := a.dot + b.dot, vals := a.vals ++ b.vals }
+    n1 := a.n1 + b.n1, s1 := a.s1 + b.s1, dot := a.dot + b.dot, vals := a.vals ++ b.vals,
+    bag := a.bag ++ b.bag }
 
 /-- the contribution of one row (= the tuple of the row's entries in the aggregate's input columns) -/
 def Stat.ofRow (r : List Val) : Stat :=
@@ -50,9 +56,10 @@ def Stat.ofRow (r : List Val) : Stat :=
   { rows := 1, n0 := c0.length, s0 := isum c0, q0 := isum (c0.map fun x => x * x),
     n1 := c1.length, s1 := isum c1,
     dot := (match r with
-      | [.leaf x, .leaf y] => x * y
+      | [.leaf (.int x), .leaf (.int y)] => x * y
       | _ => 0),
-    vals := c0 }
+    vals := c0,
+    bag := (r.headD .null).scalars.map Scalar.canon }
 
 def Stat.ofBatch : List (List Val) → Stat
   | [] => {}
@@ -66,9 +73,13 @@ def statM {Rv : Type} (view : Stat → List Rv) : Mergeable (List Val) Stat (Lis
 inductive Rv where
   | nums (xs : List (Int × Nat))
   | hist (h : List (Int × Nat))
+  | bag (h : List (Scalar × Nat))
   deriving Repr, DecidableEq, Inhabited
 
 def histogram (vals : List Int) : List (Int × Nat) :=
+  vals.foldl (fun h v => AList.set h v ((AList.get? h v).getD 0 + 1)) []
+
+def bagHist (vals : List Scalar) : List (Scalar × Nat) :=
   vals.foldl (fun h v => AList.set h v ((AList.get? h v).getD 0 + 1)) []
 
 /-- the views, by the name the harness uses -/
@@ -80,6 +91,7 @@ def view : String → Option (Stat → List Rv)
   | "sumcount" => some fun s => [.nums [(s.s0, 1)], .nums [(s.n0, 1)]]
   | "dot" => some fun s => [.nums [(s.dot, 1)], .nums [(s.rows, 1)]]
   | "pr" => some fun s => [.nums [(s.s0, s.n0)], .nums [(s.s1, s.n1)]]
+  | "bag" => some fun s => [.bag (bagHist s.bag)]
   | "total" => some fun s => [.nums [(s.s0, 1), (s.rows, 1), (s.n0, 1)]]
   | _ => none
 
